@@ -265,6 +265,7 @@ pub fn run(cfg: &Cfg, rep: &mut Rep) {
     let lats: Vec<Vec<i128>> = SCALES.iter().map(|s| gen::reading_lattice(*s, &w.leap)).collect();
     let nrand = cfg.budget(1_200_000);
     for k in 0..nrand {
+        let k = cfg.k(k, &mut r);
         let si = r.below(9) as usize;
         let s = SCALES[si];
         let c = match r.below(4) {
